@@ -253,6 +253,24 @@ static void cmd_newvals(char *s)
     ctx_t *c = cx; char *p = s;
     for (long i = 0; i < c->nnz; i++) { double re = rdnum(&p), im = 0; if (NCOMP == 2) im = rdnum(&p); MKVAL(c->a[i], re, im); }
 }
+/* caller action between calls: alter the value that was the pivot of (permuted) column jcol in the last factorization */
+static void cmd_mutate(char *s)
+{
+    ctx_t *c = cx; char kind[32]; int jcol = 0; double f = 0;
+    if (sscanf(s, "%31s %d %lf", kind, &jcol, &f) < 2) return;
+    if (jcol < 0 || jcol >= c->n) jcol = 0;
+    int pcol = -1, prow = -1;
+    for (int j = 0; j < c->n; j++) if (c->perm_c[j] == jcol) pcol = j;
+    for (int i = 0; i < c->m; i++) if (c->perm_r[i] == jcol) prow = i;
+    if (pcol < 0 || prow < 0) return;
+    /* factored matrix is A (NC) or A' (NR): entry (prow, pcol) of it */
+    int outer = c->fmt == 0 ? pcol : prow, inner = c->fmt == 0 ? prow : pcol;
+    if (c->fmt == 1) { outer = pcol; inner = prow; }   /* row storage: row `pcol` of A holds column pcol of A' */
+    for (int_t q = c->ptr[outer]; q < c->ptr[outer + 1]; q++) if (c->idx[q] == inner) {
+        if (!strcmp(kind, "zeropiv")) MKVAL(c->a[q], 0.0, 0.0);
+        else MKVAL(c->a[q], RE(c->a[q]) * f, IM(c->a[q]) * f);
+    }
+}
 static void cmd_rhs(char *s)
 {
     ctx_t *c = cx; int nrhs, ldb;
@@ -539,6 +557,8 @@ static void run_scenario(void)
         else if (!strcmp(cmd, "use")) cx = &CT[atoi(rest) % NCTX];
         else if (!strcmp(cmd, "mat")) cmd_mat(rest);
         else if (!strcmp(cmd, "newvals")) cmd_newvals(rest);
+        else if (!strcmp(cmd, "mutate")) cmd_mutate(rest);
+        else if (!strcmp(cmd, "requireok")) { if (cx->info != 0) { fprintf(OUT, "{\"e\":\"Skip\",\"id\":\"%s\",\"why\":\"precondition of the next call not met (info=%lld)\"}\n", g_id, (long long)cx->info); fflush(OUT); return; } }
         else if (!strcmp(cmd, "rhs")) cmd_rhs(rest);
         else if (!strcmp(cmd, "opt")) cmd_opt(rest);
         else if (!strcmp(cmd, "permc")) { for (int i = 0; i < cx->n; i++) cx->perm_c[i] = (int)rdint(&rest); }
